@@ -276,6 +276,33 @@ func TestC06(t *testing.T) {
 		for i := 0; i < n; i++ {
 			run(genNodeOp(rt, nm, cfg))
 		}
+		// now and then a block of several MiB (three bulky transfers): large blocks must be as atomic as small ones
+		if rapid.IntRange(0, 11).Draw(rt, "hugeblock") == 0 {
+			m := nm.LM.M
+			parent := nm.Ptr
+			if !nm.Valid[parent] || nm.States[parent] == nil {
+				parent = 0
+			}
+			op := hx.NOp{Op: "peer", Label: fmt.Sprintf("b%d", len(m.Blocks)), Parent: parent, Proposer: 1, Expect: "huge-block"}
+			s := nm.States[parent].Clone()
+			plain := genCfg{Keys: cfg.Keys, ContractPct: 0}
+			for i := 0; i < 3; i++ {
+				spec, ok := genTxSpec(rt, nm, s, plain, m.Blocks[parent].Height+1, false)
+				if !ok {
+					break
+				}
+				spec.DescLen = 1600000
+				if tx, _ := buildForGen(nm, &spec, s); tx != nil {
+					s.Apply(tx, "")
+					op.Txs = append(op.Txs, spec)
+				}
+			}
+			if len(op.Txs) > 0 {
+				run(op)
+				run(hx.NOp{Op: "sync"})
+				cs.Label("huge-block")
+			}
+		}
 		if err := nm.CheckState(); err != nil {
 			cs.Failf("uninterrupted run: %v", err)
 		}
